@@ -30,9 +30,15 @@ Qed.
 Lemma TC_grow : forall st st' o cm c, grow st st' -> TC st o cm c -> TC st' o cm c.
 Proof.
   intros st st' o cm c G H.
-  induction H as [o cm n sid url ref used kids sm ic Hl Hf Hi IH | o cm n used kids Hu Hk IH].
+  induction H as [o cm n sid url ref used kids sm ic Hl Hf Hi IH Hkids IHkids | o cm n used kids Hu Hk IH].
   - eapply TC_imp; eauto. eapply linked_grow_eq; eauto.
   - apply TC_local; [eapply UsedOK_grow; eauto|]. intros k Hin. apply IH. exact Hin.
+Qed.
+
+Lemma TCI_grow : forall st st' o c, grow st st' -> TCI st o c -> TCI st' o c.
+Proof.
+  intros st st' o [n [[[sid url] ref]|] used kids] G H; [|exact I]. destruct H as (sm & ic & Hl & Hf & Ht).
+  exists sm, ic. split; [eapply linked_grow_eq; eauto|]. split; [exact Hf|eapply TC_grow; eauto].
 Qed.
 
 (* a loop of fetches that all succeeded *)
@@ -138,19 +144,29 @@ Section Post.
   Qed.
 
   Definition comp_TC (st : state) (o : owner) (c : comp) : Prop :=
-    (cimp c <> None -> forall cm, TC st o cm c) /\
+    TCI st o c /\
     (forall key cm, o = Some key -> fs_model fs key = Some cm -> In c (child_comps cm) -> TC st o cm c).
 
   Lemma comp_TC_grow : forall st st' o c, grow st st' -> comp_TC st o c -> comp_TC st' o c.
   Proof.
     intros st st' o c G [H1 H2]. split.
-    - intros Hi cm. eapply TC_grow; eauto.
+    - eapply TCI_grow; eauto.
     - intros key cm Ho Hfm Hin. eapply TC_grow; eauto.
+  Qed.
+
+  (* an import placeholder that is an encapsulated child of a file's model has no children of its own (S4) *)
+  Lemma TCI_child_TC : forall st key cm c, fs_model fs key = Some cm -> In c (child_comps cm) -> cimp c <> None ->
+    TCI st (Some key) c -> TC st (Some key) cm c.
+  Proof.
+    intros st key cm [n [[[sid url] ref]|] used kids] Hfm Hin Hi H; [|exfalso; apply Hi; reflexivity].
+    destruct H as (sm & ic & Hl & Hf & Ht). destruct (Hsh _ _ Hfm) as (_ & _ & _ & S4).
+    assert (Hk : kids = []) by (apply (S4 _ Hin); cbn; discriminate). subst kids.
+    eapply TC_imp; eauto. intros k [].
   Qed.
 
   Lemma walk_TC (imp : state -> comp -> res (bool * state)) (o : owner) :
     (forall st c st', cimp c <> None -> cons fs st -> imp st c = Ok (true, st') ->
-                      cons fs st' /\ grow st st' /\ forall cm, TC st' o cm c) ->
+                      cons fs st' /\ grow st st' /\ TCI st' o c) ->
     forall c st st', cons fs st -> walk_comp imp c st = Ok (true, st') ->
                      cons fs st' /\ grow st st' /\ comp_TC st' o c.
   Proof.
@@ -158,12 +174,12 @@ Section Post.
     cbn [walk_comp] in E.
     destruct (requires_imports (Comp n i used kids)) eqn:Hreq; cbn [negb] in E.
     2:{ inversion E; subst. split; [exact Hc|]. split; [apply grow_refl|]. split.
-        - intros Hi. destruct i as [p|]; [cbn [requires_imports] in Hreq; discriminate Hreq|exfalso; apply Hi; reflexivity].
+        - destruct i as [p|]; [cbn [requires_imports] in Hreq; discriminate Hreq|exact I].
         - intros key cm -> Hfm Hin. eapply noimp_TC; eauto. }
     destruct i as [p|].
     - assert (Hi : cimp (Comp n (Some p) used kids) <> None) by (cbn; discriminate).
       destruct (Himp _ _ _ Hi Hc E) as (Hc' & G & T). split; [exact Hc'|]. split; [exact G|].
-      split; [intros _; exact T|intros key cm _ _ _; apply T].
+      split; [exact T|intros key cm -> Hfm Hin; eapply TCI_child_TC; eauto].
     - assert (G : cons fs st' /\ grow st st' /\ forall k, In k kids -> comp_TC st' o k).
       { clear Hreq. revert st Hc E. induction kids as [|k r IHr]; intros st Hc E.
         - inversion E; subst. split; [exact Hc|]. split; [apply grow_refl|intros k []].
@@ -173,10 +189,9 @@ Section Post.
           destruct (IHr Hr _ Hc1 E) as (Hc2 & G2 & T2).
           split; [exact Hc2|]. split; [eapply grow_trans; eauto|].
           intros k' [<-|Hk']; [eapply comp_TC_grow; eauto|apply T2; exact Hk']. }
-      destruct G as (Hc' & G & Tk). split; [exact Hc'|]. split; [exact G|]. split.
-      + intros Hi. exfalso. apply Hi. reflexivity.
-      + intros key cm -> Hfm Hin. apply TC_local; [eapply child_UsedOK; eauto|].
-        intros k Hk. apply (proj2 (Tk k Hk) key cm eq_refl Hfm). eapply child_comps_kids; eauto.
+      destruct G as (Hc' & G & Tk). split; [exact Hc'|]. split; [exact G|]. split; [exact I|].
+      intros key cm -> Hfm Hin. apply TC_local; [eapply child_UsedOK; eauto|].
+      intros k Hk. apply (proj2 (Tk k Hk) key cm eq_refl Hfm). eapply child_comps_kids; eauto.
   Qed.
 
   Lemma fetch_comp_TC : forall fuel st o hist c st',
@@ -223,22 +238,25 @@ Section Post.
     destruct H4 as (Hc' & G4 & T4).
     assert (G1' : grow st1 st') by (eapply grow_trans; [exact G2|eapply grow_trans; eauto]).
     split; [exact Hc'|]. split; [eapply grow_trans; eauto|].
-    intros cm. eapply TC_imp with (sm := sm) (ic := sc).
-    - unfold linked_model. destruct G1' as [L M]. rewrite (L _ _ Hl1). apply M. exact Hg1.
-    - exact Efc.
-    - destruct sc as [n' [[[sid' url'] ref']|] used' kids'].
-      + eapply TC_grow; [eapply grow_trans; [exact G3|exact G4]|]. apply (proj1 T2). cbn. discriminate.
-      + apply TC_local.
-        * intros c' un mu Hsub Hun Hs Emu. rewrite subcomps_eq in Hsub. destruct Hsub as [<-|Hsub].
-          -- destruct mu as [nm rm|nm sm' um rm].
-             ++ left. split; [exact I|]. destruct (Hsh _ _ Hfm) as (_ & S2 & _).
-                eapply (S2 (Comp n' None used' kids') un (ULocal nm rm)); eauto. exact I.
-             ++ right. split; [intros []|]. eapply T4; eauto.
-          -- apply in_flat_map in Hsub. destruct Hsub as (k & Hk & Hsub).
-             destruct (kids_child_comps sm _ k Hsc_in Hk) as (Hkc & _).
-             eapply (child_UsedOK st' (key_of o url) sm k Hfm Hkc); eauto.
-        * intros k Hk. destruct (kids_child_comps sm _ k Hsc_in Hk) as (Hkc & _).
-          eapply TC_grow; [exact G4|]. apply (proj2 (T3 k Hk) (key_of o url) sm eq_refl Hfm Hkc).
+    assert (Hkids_sc : forall k, In k (ckids sc) -> TC st' o' sm k).
+    { intros k Hk. destruct (kids_child_comps sm _ k Hsc_in Hk) as (Hkc & _).
+      eapply TC_grow; [exact G4|]. apply (proj2 (T3 k Hk) (key_of o url) sm eq_refl Hfm Hkc). }
+    cbn [TCI]. exists sm, sc. split.
+    { unfold linked_model. destruct G1' as [L M]. rewrite (L _ _ Hl1). apply M. exact Hg1. }
+    split; [exact Efc|].
+    destruct sc as [n' [[[sid' url'] ref']|] used' kids'].
+    - assert (T2' : TCI st' o' (Comp n' (Some (sid', url', ref')) used' kids')).
+      { eapply TCI_grow; [eapply grow_trans; [exact G3|exact G4]|]. apply (proj1 T2). }
+      cbn [TCI] in T2'. destruct T2' as (sm' & ic' & Hl' & Hf' & Ht'). eapply TC_imp; eauto.
+    - apply TC_local; [|exact Hkids_sc].
+      intros c' un mu Hsub Hun Hs Emu. rewrite subcomps_eq in Hsub. destruct Hsub as [<-|Hsub].
+      + destruct mu as [nm rm|nm sm' um rm].
+        * left. split; [exact I|]. destruct (Hsh _ _ Hfm) as (_ & S2 & _).
+          eapply (S2 (Comp n' None used' kids') un (ULocal nm rm)); eauto. exact I.
+        * right. split; [intros []|]. eapply T4; eauto.
+      + apply in_flat_map in Hsub. destruct Hsub as (k & Hk & Hsub).
+        destruct (kids_child_comps sm _ k Hsc_in Hk) as (Hkc & _).
+        eapply (child_UsedOK st' (key_of o url) sm k Hfm Hkc); eauto.
   Qed.
 End Post.
 
@@ -515,16 +533,27 @@ Section Tests.
       comp_test fx fuel RESOLVED st m0 o cm hist c = Ok true.
   Proof.
     intros o cm c HT.
-    induction HT as [o cm n sid url ref used kids sm ic Hl Hf Hi IH | o cm n used kids HU Hk IH]; intros Hoc Hin.
+    induction HT as [o cm n sid url ref used kids sm ic Hl Hf Hi IH Hkids IHkids | o cm n used kids HU Hk IH];
+      intros Hoc Hin.
     - destruct (linked_fs _ _ _ _ Hl) as (Hfm & Hget).
-      destruct (IH Hfm (find_comp_sub _ _ _ Hf)) as (N & HN). exists (S N).
+      destruct (IH Hfm (find_comp_sub _ _ _ Hf)) as (N & HN).
+      destruct (list_bound (fun k fuel => forall hist, tinv o cm hist ->
+                               comp_test fx fuel RESOLVED st m0 o cm hist k = Ok true) kids) as (Nk & HNk).
+      { intros k Hkin. apply IHkids; auto. eapply kids_child_comps; eauto. }
+      exists (S (N + Nk)).
       intros fuel Hfuel hist Hti. destruct fuel as [|f]; [lia|].
       cbn [comp_test comp_walk]. rewrite Hl, Hf.
       pose proof (comp_url_in _ _ _ _ _ _ _ Hin) as Hurlin.
       change {| e_src := importee_url hist url; e_dst := url; e_srcm := o; e_dstm := Some (key_of o url) |}
         with (test_epoch o hist url).
       rewrite (test_cycle_false _ _ _ _ _ Hti Hoc Hurlin Hget).
-      apply (HN f ltac:(lia) _ (tinv_push _ _ _ _ _ Hti Hoc Hurlin Hfm)).
+      rewrite (HN f ltac:(lia) _ (tinv_push _ _ _ _ _ Hti Hoc Hurlin Hfm)).
+      destruct (fx_placeholder_children fx) eqn:Epk; [|reflexivity].
+      assert (Hks : forall k, In k kids -> comp_test fx (S f) RESOLVED st m0 o cm hist k = Ok true).
+      { intros k Hkin. apply (HNk (S f) ltac:(lia) k Hkin hist Hti). }
+      clear -Hks Epk. induction kids as [|k r IHr]; [reflexivity|].
+      pose proof (Hks k (or_introl eq_refl)) as Ek. cbn [comp_test] in Ek. rewrite Epk in Ek. rewrite Ek.
+      apply IHr. intros k' Hk'. apply Hks. right. exact Hk'.
     - destruct (list_bound (fun k fuel => forall hist, tinv o cm hist ->
                                comp_test fx fuel RESOLVED st m0 o cm hist k = Ok true) kids) as (Nk & HNk).
       { intros k Hkin. apply IH; auto. eapply kids_child_comps; eauto. }
@@ -640,9 +669,11 @@ Section PostTheorem.
         assert (TCall : forall c, incl (subcomps c) (all_comps m0) -> TC st' None m0 c).
         { intros c. induction c as [n i used kids IHk] using comp_ind'. intros Hsub.
           destruct i as [[[sid url] ref]|].
-          - apply (proj1 (Tc (Comp n (Some (sid, url, ref)) used kids)
-                             (imported_comps_conv _ _ (Hsub _ (subcomps_self _)) ltac:(cbn; discriminate))));
-              cbn; discriminate.
+          - assert (Hi : cimp (Comp n (Some (sid, url, ref)) used kids) <> None) by (cbn; discriminate).
+            destruct (proj1 (Tc _ (imported_comps_conv _ _ (Hsub _ (subcomps_self _)) Hi))) as (sm & ic & Hl & Hf & Ht).
+            eapply TC_imp; eauto.
+            intros k Hk. rewrite Forall_forall in IHk. apply IHk; [exact Hk|].
+            intros x Hx. apply Hsub. eapply subcomps_kids; eauto.
           - apply TC_local.
             + intros c' un mu Hc'' Hun Hs Emu. pose proof (find_units_In _ _ _ Emu) as Hmu.
               destruct mu as [nm rm|nm sm um rm].
